@@ -1,5 +1,6 @@
 import Ark.Proofs.ArchIndex
 import Ark.Proofs.Rejects
+import Ark.Proofs.GenBridge.BookArchetype
 
 namespace Ark.Props.C04
 open Ark
@@ -30,5 +31,32 @@ theorem index_removeTarget : type_of% @Archetype.IndexInv.removeTarget := @Arche
 
 /-- the defect repaired in Shrink (D1): freeing alone leaves a stale entry -/
 theorem free_alone_breaks : type_of% @Archetype.freeTable_alone_breaks := @Archetype.freeTable_alone_breaks
+
+
+/-! ### The code itself: `tableIDs` of archetype.go, translated statement by statement on every run -/
+
+/-- `newTableIDs` as in the source = the model's `TableIDs.ofList` -/
+theorem src_newTableIDs : type_of% @Ark.GenBridge.Book.newTableIDs_eq := @Ark.GenBridge.Book.newTableIDs_eq
+/-- `tableIDs.Append` as in the source = the model's -/
+theorem src_tableIDs_append : type_of% @Ark.GenBridge.Book.append_eq := @Ark.GenBridge.Book.append_eq
+/-- `tableIDs.Remove` (swap-remove through the index map) as in the source = the model's, for every state -/
+theorem src_tableIDs_remove : type_of% @Ark.GenBridge.Book.remove_eq := @Ark.GenBridge.Book.remove_eq
+/-- `tableIDs.Clear` as in the source = the model's -/
+theorem src_tableIDs_clear : type_of% @Ark.GenBridge.Book.clear_eq := @Ark.GenBridge.Book.clear_eq
+
+/-! ### The code itself: the relation-index bookkeeping of archetype.go, translated statement by statement on every run -/
+
+/-- `archetype.AddTable` as in the source = the model's `Archetype.addTable`, for every archetype and every table with the archetype's layout -/
+theorem src_addTable : type_of% @Ark.GenBridge.Book.addTable_eq := @Ark.GenBridge.Book.addTable_eq
+/-- `archetype.RemoveTarget` as in the source = the model's -/
+theorem src_removeTarget : type_of% @Ark.GenBridge.Book.removeTarget_eq := @Ark.GenBridge.Book.removeTarget_eq
+/-- `archetype.GetFreeTable` as in the source = the model's (pop the last free table) -/
+theorem src_getFreeTable : type_of% @Ark.GenBridge.Book.getFreeTable_eq := @Ark.GenBridge.Book.getFreeTable_eq
+/-- `archetype.HasRelations` as in the source = the model's -/
+theorem src_hasRelations : type_of% @Ark.GenBridge.Book.hasRelations_eq := @Ark.GenBridge.Book.hasRelations_eq
+/-- `archetype.FreeTable` as in the source = the model's `Archetype.freeTable` (+ the table's free flag) -/
+theorem src_freeTable : type_of% @Ark.GenBridge.Book.freeTable_eq := @Ark.GenBridge.Book.freeTable_eq
+/-- `archetype.removeTableRelations` as in the source = the model's -/
+theorem src_removeTableRelations : type_of% @Ark.GenBridge.Book.removeTableRelations_eq := @Ark.GenBridge.Book.removeTableRelations_eq
 
 end Ark.Props.C04
